@@ -94,7 +94,7 @@ def showSas (l : List String) : String := "{" ++ ",".intercalate (sortStrings l.
 def showSetMap (m : List (String × List String)) : String :=
   " ".intercalate ((sortByKey (·.1) m).map fun kv => kv.1 ++ "=" ++ "+".intercalate (sortStrings kv.2))
 
-def showState (s : State) : String :=
+def showState (s : Ctl) : String :=
   let svcs := (sortByKey (·.1) s.smap).map fun kv => showSvc kv.2
   let idx := sortStrings (s.index.map fun kv =>
     match kv.2.eps with
@@ -106,7 +106,7 @@ def showState (s : State) : String :=
   "S[" ++ " ".intercalate svcs ++ "] X[" ++ " ".intercalate idx ++ "] C[" ++ " ".intercalate slc ++ "] I[" ++
     showSetMap s.byIP ++ "] P[" ++ " ".intercalate ipby ++ "] R[" ++ showSetMap s.resync ++ "]"
 
-def showView (s : State) : String :=
+def showView (s : Ctl) : String :=
   let parts := (sortByKey (·.1) s.smap).map fun kv =>
     match alookup kv.1 s.index with
     | none => showSvc kv.2 ++ "=[]{}"
@@ -120,7 +120,7 @@ def parseOrder (tok : String) : List String :=
   given ++ kindsDefault.filter (fun k => !given.contains k)
 
 /-- the final objects in the order in which the harness writes them for the cold start -/
-def sortedFinal (s : State) : State :=
+def sortedFinal (s : Ctl) : Ctl :=
   { s with nodes := sortByKey (·.name) s.nodes, svcs := sortByKey Svc.key s.svcs,
            pods := sortByKey Pod.key s.pods, slices := sortByKey Slice.key s.slices }
 
@@ -128,18 +128,18 @@ def stepD (s : State) (toks : List String) : State × String :=
   match toks with
   | "case" :: _ => ({}, "ok")
   | ["hold"] => (hold s, "ok")
-  | ["release"] => let s' := release s; (s', showState s')
+  | ["release"] => let s' := release s; (s', showState s'.c)
   | ["cold", order] =>
     let s' := release s
-    let cold := coldRun (finalOps (sortedFinal s') (parseOrder order))
-    (s', "ordered=" ++ showView s' ++ " cold=" ++ showView cold)
+    let cold := coldRun (finalOps (sortedFinal s'.c) (parseOrder order))
+    (s', "ordered=" ++ showView s'.c ++ " cold=" ++ showView cold.c)
   | _ =>
     match parseOp toks with
     | none => (s, "bad-op")
     | some op =>
       match applyOp s op with
       | none => (s, "bad-op")
-      | some s' => (s', if s'.held then "queued" else showState s')
+      | some s' => (s', if s'.held then "queued" else showState s'.c)
 
 end IstioModel.C15
 
@@ -164,11 +164,11 @@ def diffClasses (o c : IEp) : List String :=
   (if sortByKey (·.1) (dropTopo o.labels) ≠ sortByKey (·.1) (dropTopo c.labels) ∨ o.tls ≠ c.tls then ["labels-built-before-pod-label-change"] else [])
 
 /-- the slice endpoint (of the final objects) an address of a host comes from -/
-def sourceOf (final : State) (host addr : String) : Option Ep :=
+def sourceOf (final : Ctl) (host addr : String) : Option Ep :=
   (final.slices.filter (fun sl => sl.host = host ∧ !sl.fqdn ∧ sl.svc ≠ "")).findSome? fun sl =>
     (sl.addrPairs.find? (·.2 = addr)).map (·.1)
 
-def classifyHost (final o c : State) (host : String) : List String :=
+def classifyHost (final o c : Ctl) (host : String) : List String :=
   match hostView o host, hostView c host with
   | some vo, some vc =>
     let missing := vc.eps.filter fun e => !(vo.eps.any fun x => epKey x = epKey e)
@@ -201,7 +201,7 @@ def classifyHost (final o c : State) (host : String) : List String :=
   | none, none => []
   | _, _ => ["service-set-differs"]
 
-def classify (final o c : State) : List String :=
+def classify (final o c : Ctl) : List String :=
   let hosts := (akeys o.smap ++ akeys c.smap).eraseDups
   sortStrings (hosts.flatMap (classifyHost final o c)).eraseDups
 
@@ -209,9 +209,9 @@ def stepC (s : State) (toks : List String) : State × String :=
   match toks with
   | ["cold", order] =>
     let s' := release s
-    let cold := coldRun (finalOps (sortedFinal s') (parseOrder order))
-    let cls := classify s' s' cold
-    (s', if showView s' = showView cold then "same" else "cls=" ++ (if cls.isEmpty then "unexplained" else ",".intercalate cls))
+    let cold := coldRun (finalOps (sortedFinal s'.c) (parseOrder order))
+    let cls := classify s'.c s'.c cold.c
+    (s', if showView s'.c = showView cold.c then "same" else "cls=" ++ (if cls.isEmpty then "unexplained" else ",".intercalate cls))
   | _ => ((stepD s toks).1, "-")
 
 end IstioModel.C15
